@@ -79,14 +79,22 @@ def nested_param_edit(rng, spec):
     kw = spec2["kw"]
     flat = [k for k, v in kw.items() if isinstance(v, (int, float)) and not isinstance(v, bool)
             and k.endswith(("_scale", "level"))]
-    nested = [k for k, v in kw.items() if isinstance(v, dict) and "cls" in v and v["cls"] == "L2Cost"]
+    nested = [k for k, v in kw.items() if isinstance(v, dict) and v.get("cls") in ("L2Cost", "L1Cost")]
     if nested and rng.random() < 0.7:
         k = nested[int(rng.integers(len(nested)))]
-        if kw[k]["kw"].get("param") is None and spec["cls"] not in ("CAPA", "MVCAPA"):
+        inner = kw[k]["kw"]
+        if kw[k]["cls"] == "L1Cost" and rng.random() < 0.5:
+            # a hyper-parameter of a user cost other than `param`
+            new = float([0.5, 2.0, 3.0, 4.0][int(rng.integers(4))])
+            if inner.get("weight", 1.0) == new:
+                new = 1.5
+            inner["weight"] = new
+            return {f"{k}__weight": new}, spec2
+        if inner.get("param") is None and spec["cls"] not in ("CAPA", "MVCAPA"):
             return None
         new = round(float(rng.normal()), 2)
-        if spec["cls"] in ("CAPA", "MVCAPA") or kw[k]["kw"].get("param") is not None:
-            kw[k]["kw"]["param"] = new
+        if spec["cls"] in ("CAPA", "MVCAPA") or inner.get("param") is not None:
+            inner["param"] = new
             return {f"{k}__param": new}, spec2
         return None
     if flat:
@@ -199,11 +207,22 @@ def history(ctx, seed):
         r = rng.random()
         if r < 0.2:
             name = SCORER_NAMES[int(rng.integers(len(SCORER_NAMES)))]
-            if "GaussianCov" in name:
-                name = "CUSUM"
-            spec, _ = make_scorer(rng, name, 1)
-            if "nd" in str(spec):
-                spec, _ = make_scorer(rng, "L2Cost[optim]", 1)
+            # array-valued fixed parameters are sized for the columns of one of the datasets (fits on
+            # data of another width raise for the object and its twins alike); covariance matrices
+            # in Fortran order half of the time (a 1x1 array is both C- and F-contiguous)
+            p_s = int(datasets[int(rng.integers(len(datasets)))].shape[1])
+            spec, _ = make_scorer(rng, name, p_s)
+
+            def _fortran(x):
+                if isinstance(x, dict):
+                    if "nd" in x and np.ndim(x["nd"]) == 2 and rng.random() < 0.5:
+                        x["order"] = "F"
+                    for v in list(x.values()):
+                        _fortran(v)
+                elif isinstance(x, list):
+                    for v in x:
+                        _fortran(v)
+            _fortran(spec)
             if rng.random() < 0.25:
                 # fixed-parameter costs with a NON-zero mean (scalars broadcast over any p)
                 m_, v_ = round(float(rng.normal(0, 2)), 2) or 0.5, float(rng.choice([0.5, 1.0, 2.0]))
@@ -246,6 +265,17 @@ def history(ctx, seed):
                     spec["kw"]["max_segment_length"] = max(spec["kw"]["max_segment_length"], 4)
             if "GaussianCovCost" in short(spec):
                 spec, _, _ = random_detector(rng, True, 3, which="PELT")
+            # scorers whose hyper-parameters are edited later through nested set_params: costs with
+            # a fixed parameter and a user cost with a second hyper-parameter, in every scorer slot
+            slot = {"PELT": "cost", "MovingWindow": "change_score", "SeededBinarySegmentation": "change_score",
+                    "CircularBinarySegmentation": "anomaly_score", "CAPA": "collective_saving",
+                    "MVCAPA": "collective_saving"}.get(spec["cls"])
+            if slot and rng.random() < 0.3:
+                fixed = spec["cls"] in ("CAPA", "MVCAPA") or rng.random() < 0.5
+                par = round(float(rng.normal()), 2) if fixed else None
+                spec["kw"][slot] = [S("L2Cost", param=par),
+                                    S("L1Cost", param=par, weight=float([1.0, 2.0][int(rng.integers(2))]))][
+                    int(rng.integers(2))]
             if spec["cls"] == "CircularBinarySegmentation":
                 spec["kw"]["max_interval_length"] = min(spec["kw"]["max_interval_length"], 14)
             o = Obj(spec, build(spec), "detector")
@@ -279,6 +309,8 @@ def history(ctx, seed):
                 st, _ = call(o.obj, "fit", arg_of(D))
                 if st == "ok":
                     o.train = D
+                else:
+                    restore_after_failure(o)  # a failed fit leaves the scorer in an unspecified state
                 log.append((step, short(o.spec)[:40], "fit", D.shape, st))
             else:
                 n = len(o.train)
